@@ -268,6 +268,15 @@ fn big_tree(strays: usize, incomplete: usize) -> Tree {
         gm::PkgDir { name, files, extra: vec![], missing_mask: mask }
     };
     let mut dirs = vec![mk("first-1.0".into(), 0), mk("middle-pkg-2.0nb1".into(), 0), mk("zlast-3".into(), 0)];
+    // the size ladder for metadata files: +CONTENTS of 2^24 bytes plus a little,
+    // +DESC of 2^22, +BUILD_INFO of 2^20 (a cap on what read_metadata returns
+    // shows one rung above it); only with the full-size tree
+    if strays >= 10_000 {
+        let line = "lib/libexample.so.1.2.3\n";
+        dirs[1].files[MANDATORY[1]] = Some(line.repeat((1 << 24) / line.len() + 2));
+        dirs[1].files[MANDATORY[2]] = Some("A long description.\n".repeat((1 << 22) / 20 + 2));
+        dirs[1].files[0] = Some("OPSYS=NetBSD\n".repeat((1 << 20) / 13 + 2));
+    }
     for i in 0..incomplete {
         dirs.push(mk(format!("partial{i}-0.{i}"), 1 + (i % 7) as u8));
     }
